@@ -329,6 +329,10 @@ mod cli {
     ) -> Result<(), Box<dyn std::error::Error>> {
         match input {
             Ok(test_cases) => {
+                if test_cases.is_empty() {
+                    return Err("error: no test cases have been provided".into());
+                }
+
                 let mut builder = RegExpBuilder::from(&test_cases);
 
                 if cli.is_digit_converted {
